@@ -54,6 +54,7 @@ def plan(tier, seed):
             specs.append({'kind': 'stream', 'fmt': fmt, 'exists': exists, 'verbosity': 'debug'})
     specs.append({'kind': 'internal', 'verbosity': 'debug'})
     specs.append({'kind': 'faultfree'})
+    specs.append({'kind': 'cli_more'})
     specs.append({'kind': 'cli', 'entry': 'luamin_fmt', 'verbosity': 'debug'})
     specs.append({'kind': 'cli', 'entry': 'build', 'verbosity': 'debug'})
     specs.append({'kind': 'png_rows', 'exists': True})
@@ -540,6 +541,95 @@ def run_internal(ctx, rng, spec, root):
     ctx.sample({'internal_failure_sources': ['oversize_code', 'missing_names_file', 'build_unparseable_source', 'build_missing_require']})
 
 
+def run_cli_more(ctx, rng, spec, root):
+    """(A) several carts on one command line, one of which cannot be processed: whatever the command does about the others, the
+    destination of the cart that failed is as it was.  (B) the command-line tools with a Lua writer that raises, or whose output does
+    not re-parse, swapped in for the one they use: the command fails and its destination is as it was."""
+    from pico8 import tool
+    from pico8.lua import lua
+    n = 0
+    good_code = carts.varied_lua(rng, 200)
+    for cmd in ('luafmt_overwrite', 'luafmt', 'luamin', 'writep8'):
+        for fmt in (('p8',) if cmd == 'luafmt_overwrite' else ('p8', 'png')):
+            for order in ('good_first', 'bad_first', 'good_bad_good', 'good_first_unwritable'):
+                # the cart that cannot be processed: its code does not load (a block never closed), or loads and cannot be written
+                # (a stray `end`: the tree-driven writers refuse code that was not parsed to its end)
+                bad_code = b'x=1\nif x then\n y=2\n' if order != 'good_first_unwritable' else b'x=1\nend\ny=2\n'
+                for exists in (True, False):
+                    if cmd == 'luafmt_overwrite' and not exists:
+                        continue
+                    n += 1
+                    work = os.path.join(root, 'batch%d' % n)
+                    da, db, dc = (os.path.join(work, x) for x in 'abc')
+                    for d in (da, db, dc):
+                        os.makedirs(d)
+                    ext = '.p8' if fmt == 'p8' else '.p8.png'
+                    regions, _ = carts.random_regions(rng, 'sparse')
+
+                    def cart(code):
+                        return rc.write_p8(regions, code, version=8) if fmt == 'p8' else rc.write_p8png(regions, rc.raw_code_area(code), 8)
+                    pa, pb, pc = os.path.join(da, 'first' + ext), os.path.join(db, 'broken' + ext), os.path.join(dc, 'third' + ext)
+                    for pth, code in ((pa, good_code), (pb, bad_code), (pc, good_code)):
+                        with open(pth, 'wb') as fh:
+                            fh.write(cart(code))
+                    out_b = pb if cmd == 'luafmt_overwrite' else os.path.join(db, 'broken_fmt' + ('.p8' if cmd == 'writep8' else ext))
+                    if exists and out_b != pb:
+                        with open(out_b, 'wb') as fh:
+                            fh.write(rc.write_p8(regions, b'earlier=1\n', version=8) if out_b.endswith('.p8') else cart(b'earlier=1\n'))
+                    files = {'good_first': [pa, pb], 'bad_first': [pb, pa], 'good_bad_good': [pa, pb, pc], 'good_first_unwritable': [pa, pb]}[order]
+                    argv = QUIET + (['luafmt', '--overwrite'] if cmd == 'luafmt_overwrite' else [cmd]) + files
+                    dest = PlainDest(ctx, out_b, fmt)
+                    case = {'injector': 'batch_one_cart_fails', 'cmd': cmd, 'fmt': fmt, 'order': order, 'exists': exists}
+                    # (the unwritable cart only fails commands whose writer walks the tree; a command that copes with it has not failed)
+                    rbox = [None]
+
+                    def batch_call():
+                        rbox[0] = tool.main(argv)
+                        return rbox[0]
+                    attempt(ctx, dest, batch_call, case, 'batch_one_cart_fails',
+                            fired=(lambda: True) if order != 'good_first_unwritable' else (lambda: rbox[0] not in (0, None)))
+                    ctx.feature('batch_order:' + order)
+                    shutil.rmtree(work, ignore_errors=True)
+    # (B)
+    for cmd, base in (('luafmt_overwrite', 'LuaFormatterWriter'), ('luafmt', 'LuaFormatterWriter'), ('luamin', 'LuaMinifyTokenWriter')):
+        for fmt in (('p8',) if cmd == 'luafmt_overwrite' else ('p8', 'png')):
+            for garbage in (False, True):
+                for k in (0, 1, 3):
+                    for exists in (True, False):
+                        if cmd == 'luafmt_overwrite' and not exists:
+                            continue
+                        n += 1
+                        work = os.path.join(root, 'cliw%d' % n)
+                        os.makedirs(work)
+                        ext = '.p8' if fmt == 'p8' else '.p8.png'
+                        regions, _ = carts.random_regions(rng, 'sparse')
+                        code = carts.simple_lua(rng, 300)
+                        inp = os.path.join(work, carts.cart_basename(n) + ext)
+                        with open(inp, 'wb') as fh:
+                            fh.write(rc.write_p8(regions, code, version=8) if fmt == 'p8' else rc.write_p8png(regions, rc.raw_code_area(code), 8))
+                        out = inp if cmd == 'luafmt_overwrite' else inp[:-len(ext)] + '_fmt' + ext
+                        if exists and out != inp:
+                            shutil.copy(inp, out)
+                        argv = QUIET + (['luafmt', '--overwrite'] if cmd == 'luafmt_overwrite' else [cmd]) + [inp]
+                        orig = getattr(lua, base)
+                        W = faults.failing_writer_cls(orig, k, garbage=garbage)
+                        dest = PlainDest(ctx, out, fmt)
+                        inj = 'cli_unparseable_output' if garbage else 'cli_lua_writer'
+                        case = {'injector': inj, 'cmd': cmd, 'fmt': fmt, 'k': k, 'exists': exists, 'base': base}
+
+                        def call():
+                            setattr(lua, base, W)
+                            try:
+                                return tool.main(argv)
+                            finally:
+                                setattr(lua, base, orig)
+                        # (a writer that raises always fails the command; output that does not re-parse is caught by the .p8 writer, which
+                        # is the one that re-parses what it is about to write)
+                        attempt(ctx, dest, call, case, inj, fired=(lambda: True) if (not garbage or fmt == 'p8') else None)
+                        shutil.rmtree(work, ignore_errors=True)
+    ctx.sample({'cli_more': 'several carts on one command line with one that cannot be processed; command-line tools with failing writers'})
+
+
 class PlainDest(Dest):
     """Snapshot oracle for a destination the harness spells itself (no files of its own)."""
 
@@ -659,7 +749,7 @@ def run_shard(spec, ctx):
     try:
         with Verbosity(level):
             {'stream': run_stream, 'writer_section': run_writer_section, 'png_rows': run_png_rows, 'cli': run_cli,
-             'failpoints': run_failpoints, 'internal': run_internal, 'faultfree': run_faultfree}[spec['kind']](ctx, rng, spec, root)
+             'failpoints': run_failpoints, 'internal': run_internal, 'faultfree': run_faultfree, 'cli_more': run_cli_more}[spec['kind']](ctx, rng, spec, root)
     finally:
         QUIET[:] = ['-q']
         VERBOSITY[0] = 'quiet'
@@ -677,6 +767,9 @@ def replay(case, ctx):
     fsmon.install()
     try:
         fmt, exists, inj = case.get('fmt', 'p8'), case.get('exists', True), case['injector']
+        if inj in ('batch_one_cart_fails', 'cli_lua_writer', 'cli_unparseable_output'):
+            run_cli_more(ctx, rng, {}, root)      # (the whole small grid: the recorded case is one of its cells)
+            return
         if inj == 'faultfree':
             run_faultfree(ctx, rng, {}, root, only=(case['code_kind'], fmt, case['cmd'], case['spelling'], exists))
             return
@@ -715,7 +808,8 @@ def gates(m, tier):
         if f.get(k, 0) < 1:
             missed.append('%s never driven' % k)
     for inj in ('stream', 'lua_writer', 'section', 'png_encoder', 'failpoint', 'unparseable_output', 'oversize_code', 'missing_names_file',
-                'build_unparseable_source', 'build_missing_require', 'unparseable_own_tokens', 'explicit_label_then_failure'):
+                'build_unparseable_source', 'build_missing_require', 'unparseable_own_tokens', 'explicit_label_then_failure',
+                'batch_one_cart_fails', 'cli_lua_writer', 'cli_unparseable_output'):
         if mon.get('faults_delivered:' + inj, 0) < 1:
             missed.append('no fault delivered by injector %s' % inj)
     for inj in ('stream', 'lua_writer', 'section', 'failpoint'):
